@@ -22,10 +22,11 @@
 #include <pthread.h>
 #include <sched.h>
 #include <stdlib.h>
+#include <errno.h>
 #include <time.h>
 
 enum { F_BACKGROUND, F_FOREGROUND, F_MULTI_SENDER, F_LONG_MESSAGE, F_FILTERED_CALLS, F_LEVEL_CHANGE, F_EMPTY_MESSAGE, F_SHUTDOWN_WITH_BACKLOG,
-       F_TRUNCATED_NOALLOC, F_TRUNCATED_DIRECT, F_EXACT_FIT, F_LEVEL_NONE, F_DEEP_BACKLOG, F_WRITER_ERRORS, F_LONG_SUBJECT, F_STD_BY_NAME, F_STD_BY_FILE };
+       F_TRUNCATED_NOALLOC, F_TRUNCATED_DIRECT, F_EXACT_FIT, F_LEVEL_NONE, F_DEEP_BACKLOG, F_WRITER_ERRORS, F_LONG_SUBJECT, F_STD_BY_NAME, F_STD_BY_FILE, F_NOALLOC_WRITE_FAILED };
 
 /* ================================================================== recording writer */
 #define MAX_REC 4096
@@ -700,6 +701,29 @@ static bool same_modulo_timestamp(const char *a, const char *full, size_t n) {
     return true;
 }
 
+/* a stream that refuses selected writes (no bytes taken, errno EAGAIN) and records the others */
+struct failing_stream {
+    char buf[16384];
+    size_t n;
+    int attempts;
+    int fail_at; /* 1-based attempt number that fails */
+    bool fail_twice;
+};
+
+static ssize_t failing_write(void *cookie, const char *data, size_t size) {
+    struct failing_stream *fs = cookie;
+    ++fs->attempts;
+    if (fs->attempts == fs->fail_at || (fs->fail_twice && fs->attempts == fs->fail_at + 1)) {
+        errno = EAGAIN;
+        return 0;
+    }
+    if (fs->n + size <= sizeof(fs->buf)) {
+        memcpy(fs->buf + fs->n, data, size);
+        fs->n += size;
+    }
+    return (ssize_t)size;
+}
+
 static void trunc_case(uint64_t case_idx) {
     struct mon_rng *r = &mon_case_rng;
     struct aws_allocator *alloc = mon_guard_allocator();
@@ -969,6 +993,82 @@ static void trunc_case(uint64_t case_idx) {
             }
         }
     }
+    /* ---- part 4: the no-alloc logger writing to a FILE whose writes fail now and then (EAGAIN on a non-blocking pipe,
+     * a momentarily full disk): the failing call reports an error, every other call still produces its whole line ---- */
+    {
+        enum { NFW = 8 };
+        uint64_t v4 = mon_violations();
+        static struct failing_stream fs;
+        memset(&fs, 0, sizeof(fs));
+        fs.fail_at = 1 + (int)mon_below(r, NFW);
+        fs.fail_twice = mon_chance(r, 1, 3);
+        cookie_io_functions_t io = {.read = NULL, .write = failing_write, .seek = NULL, .close = NULL};
+        FILE *ff = fopencookie(&fs, "w", io);
+        setvbuf(ff, NULL, _IONBF, 0);
+        struct aws_logger flog;
+        struct aws_logger_standard_options fopt = {.level = AWS_LL_TRACE, .filename = NULL, .file = ff};
+        if (!ff || aws_logger_init_noalloc(&flog, alloc, &fopt)) {
+            mon_violation("C14:init-failed", "no-alloc logger over a cookie stream could not be initialised");
+        } else {
+            mon_watchdog_arm(60, "C14:hang", "no-alloc logger: a log call after a failed write (or clean-up) did not return");
+            aws_logger_set(&flog);
+            char *fpay[NFW];
+            for (int i = 0; i < NFW; ++i) {
+                fpay[i] = make_payload(3, i, (size_t)mon_below(r, 300), case_idx);
+                AWS_LOGF_WARN(SUBJECTS[mon_below(r, N_LIB_SUBJECTS)], "%s", fpay[i]);
+            }
+            aws_logger_set(NULL);
+            aws_logger_clean_up(&flog);
+            mon_watchdog_disarm();
+            /* every call made one write attempt; the accepted ones must be whole lines of the calls that did not fail */
+            int expect_failed = fs.fail_twice ? 2 : 1;
+            if (fs.attempts != NFW) {
+                mon_violation("C14:failing-file:write-attempts", "%d log calls led to %d write attempts on the stream", NFW, fs.attempts);
+            }
+            size_t pos4 = 0;
+            int got = 0, call = 0;
+            while (pos4 < fs.n) {
+                const char *nl = memchr(fs.buf + pos4, '\n', fs.n - pos4);
+                if (!nl) {
+                    mon_violation("C14:line-not-newline-terminated", "no-alloc logger over a failing stream: output ends without a newline");
+                    break;
+                }
+                size_t ll = (size_t)(nl - (fs.buf + pos4)) + 1;
+                while (call < NFW && (call + 1 == fs.fail_at || (fs.fail_twice && call + 1 == fs.fail_at + 1))) {
+                    ++call; /* the calls whose write was refused */
+                }
+                if (call >= NFW) {
+                    mon_violation("C14:duplicate-line", "no-alloc logger over a failing stream: more lines than successful writes");
+                    break;
+                }
+                size_t pl = strlen(fpay[call]);
+                if (ll < pl + 4 || memcmp(fs.buf + pos4 + ll - 1 - pl, fpay[call], pl) || memcmp(fs.buf + pos4 + ll - 1 - pl - 3, " - ", 3)) {
+                    mon_violation("C14:failing-file:line-mismatch", "no-alloc logger: line %d after a failed write does not end in the message of call %d: '%.60s'", got, call,
+                                  fs.buf + pos4);
+                    break;
+                }
+                ++call;
+                ++got;
+                pos4 += ll;
+            }
+            int want = NFW - expect_failed;
+            if (fs.fail_twice && fs.fail_at == NFW) {
+                want = NFW - 1;
+            }
+            if (got != want && mon_violations() == v4) {
+                mon_violation("C14:lost-line", "no-alloc logger: write %d%s of %d was refused by the stream; %d whole lines arrived, expected %d", fs.fail_at,
+                              fs.fail_twice ? " and the next one" : "", NFW, got, want);
+            }
+            mon_flag(F_NOALLOC_WRITE_FAILED);
+            mon_count("noalloc_logger_lines_after_a_failed_write", (uint64_t)got);
+            for (int i = 0; i < NFW; ++i) {
+                free(fpay[i]);
+            }
+        }
+        if (ff) {
+            fclose(ff);
+        }
+    }
     struct mon_alloc_stats st1;
     mon_guard_stats(&st1);
     MON_CHECK(st1.live_blocks == st0.live_blocks, "C14:leak", "allocator imbalance after the truncation sweep: %lld blocks", (long long)(st1.live_blocks - st0.live_blocks));
@@ -983,7 +1083,8 @@ int main(int argc, char **argv) {
     static const char *names[] = {"background_channel", "foreground_channel", "several_senders", "message_over_8000_bytes", "filtered_calls", "level_changed_at_barrier",
                                   "empty_message", "clean_up_with_lines_still_queued", "noalloc_line_truncated", "direct_line_truncated", "line_fills_buffer_exactly",
                                   "level_none", "clean_up_with_more_than_64_lines_queued", "writer_reported_errors",
-                                  "subject_name_of_79_to_300_characters", "standard_logger_file_opened_by_name", "standard_logger_callers_FILE"};
+                                  "subject_name_of_79_to_300_characters", "standard_logger_file_opened_by_name", "standard_logger_callers_FILE",
+                                  "noalloc_logger_stream_refused_a_write"};
     for (int i = 0; i < (int)(sizeof(names) / sizeof(names[0])); ++i) {
         mon_flag_name(i, names[i]);
     }
